@@ -1452,6 +1452,9 @@ int scpiParser_parseProgramData(lex_state_t * state, scpi_token_t * token) {
                 token->len += wsLen + suffixLen;
                 token->type = SCPI_TOKEN_DECIMAL_NUMERIC_PROGRAM_DATA_WITH_SUFFIX;
                 result = token->len;
+            } else {
+                /* no suffix - the white space belongs to the program data separator */
+                realLen += wsLen;
             }
         }
     }
